@@ -420,6 +420,30 @@ Fixpoint read_until (fuel : nat) (size maxSize : N) (d : dstate) : rures * dstat
       end
   end.
 
+(* readUntil exactly as the Go loop searches: each round only looks at buf[last:], where last = size - len(delim) + 1
+   of the previous round (0 in the first), i.e. it keeps an overlap of len(delim) - 1 bytes so that a delimiter that
+   straddles two rounds is still seen.  [read_until] above searches the whole buffer every round; the two are proved
+   equal (C20_read_until_overlap), which is the statement that the overlap loses no delimiter. *)
+Definition delim_end_from (last : N) (buf : bytes) : option N :=
+  match delim_end (dropN last buf) with
+  | Some e => Some (N.min last (lenN buf) + e)
+  | None => None
+  end.
+
+Fixpoint read_until_go (fuel : nat) (last size maxSize : N) (d : dstate) : rures * dstate :=
+  match fuel with
+  | O => (RFuel, d)
+  | S f =>
+      let '(buf, err, d1) := peek size d in
+      match delim_end_from last buf with
+      | Some e => (RFound (takeN e buf), mkD (dropN e (d_rem d1)) (d_eof d1))
+      | None =>
+          if err && (lenN buf =? lenN (d_rem d1)) then (REof buf, mkD [] (d_eof d1))
+          else if maxSize <? size * 2 then (RTooBig, d1)
+          else read_until_go f (size - 1) (size * 2) maxSize d1
+      end
+  end.
+
 (* enough for any 64-bit size *)
 Definition ru_fuel : nat := 70.
 
@@ -548,7 +572,12 @@ Inductive case :=
 (* arbitrary bytes given to Decode *)
 | CDecode (enc : bytes) (dec : ores) (timeout : bool)
 (* a stream given to a decoder with the given limits, Decode called until the first non-assertion result *)
-| CStream (lim : limits) (stream : bytes) (results : list ores) (timeout : bool).
+| CStream (lim : limits) (stream : bytes) (results : list ores) (timeout : bool)
+(* valid signed assertions (their Headers(), Body(), signature) written by the real Encoder into one stream, read
+   back by a decoder whose limits are ample, through a reader that hands out the bytes [chunk] at a time (0 = all at
+   once); sizes are chosen so that the delimiters fall on and around the decoder's read boundaries *)
+| CChunk (lim : limits) (origs : list (list (bytes * hv) * bytes * bytes)) (stream : bytes) (chunk : N)
+         (results : list ores) (timeout : bool).
 
 Definition pres_of (r : res (list (bytes * hv))) : pres :=
   match r with Ok h => POk (sort_headers h) | Err => PErr | _ => PPanic end.
@@ -601,6 +630,8 @@ Definition mismatch (c : case) : bool :=
   | CDecode enc dec _ => negb (dec_agree (decode_parts enc) dec)
   | CStream lim stream results _ =>
       negb (stream_agree (stream_all lim (mkD stream false) (accepted_of results)) results)
+  | CChunk lim _ stream _ results _ =>
+      negb (stream_agree (stream_all lim (mkD stream false) (accepted_of results)) results)
   end.
 
 (* The property's conclusion on the observed behaviour only (no model function of the codec is used):
@@ -623,6 +654,14 @@ Definition within (lim : limits) (o : ores) : bool :=
   | _ => true
   end.
 
+(* every original comes back identical, in order, and then the stream ends cleanly *)
+Fixpoint same_all (origs : list (list (bytes * hv) * bytes * bytes)) (results : list ores) : bool :=
+  match origs, results with
+  | [], [OEof] => true
+  | o :: origs', r :: results' => ores_ok_same (fst (fst o)) (snd (fst o)) (snd o) r && same_all origs' results'
+  | _, _ => false
+  end.
+
 Definition monitor_fail (c : case) : bool :=
   match c with
   | CFmt _ _ => false
@@ -639,4 +678,8 @@ Definition monitor_fail (c : case) : bool :=
          | OEof :: _ => false
          | _ => true
          end
+  | CChunk lim origs _ _ results timeout =>
+      timeout || existsb is_panic results
+      || (forallb (fun o => norm_headers (fst (fst o)) && forallb (fun kv => lines_ok (snd kv)) (fst (fst o))) origs
+          && negb (same_all origs results))
   end.
